@@ -191,6 +191,18 @@ def _lag1_autocorr(exact, e):
     return rho, (1 + rho) < 1e-9, (1 - rho) < 1e-9
 
 
+def spread_condition(xs):
+    """mean square / variance: the factor by which a floating-point correlation of xs amplifies rounding
+    (inf when there is no spread).  Only used to widen tolerances / to declare a case ill-conditioned."""
+    n = len(xs)
+    if n < 2:
+        return float("inf")
+    m = math.fsum(xs) / n
+    v = math.fsum((x - m) ** 2 for x in xs) / n
+    ms = math.fsum(x * x for x in xs) / n
+    return float("inf") if v == 0 else ms / v
+
+
 def corr_squared(A, a, b):
     """Squared Pearson correlation; None when either series has no spread."""
     return _corr_squared(A.exact, tuple(a), tuple(b))
@@ -297,10 +309,14 @@ def baseline_reference(obs, pred, p, sign=1, reported_n_prime=None):
     elif opz:
         acc["n_prime"] = [UNDEF, num(1)]  # denominator 1+rho is zero
         info["n_prime_class"] = "rho=-1"
+    elif 4e-15 * max(spread_condition(e[1:]), spread_condition(e[:-1])) > 1e-4:
+        acc["n_prime"] = [ANY]  # the spread of the residuals is rounding noise of observed - predicted
+        info["n_prime_class"] = "rho_ill_conditioned"
     else:
         v = 0.0 if (omz and A.exact) else n * (1 - rho) / (1 + rho)
+        tol_rho = 2e-14 + 4e-15 * max(spread_condition(e[1:]), spread_condition(e[:-1]))
         # conditioning-aware: d n'/d rho = -2n/(1+rho)^2
-        acc["n_prime"] = [("num", v, 1e-12 * max(abs(v), n) + n * 2e-14 / (1 + rho) ** 2)]
+        acc["n_prime"] = [("num", v, 1e-12 * max(abs(v), n) + n * tol_rho / (1 + rho) ** 2)]
         info["n_prime_class"] = "rho=+1" if omz else "regular"
     npr = reported_n_prime
     if npr is None or not isinstance(npr, (int, float)) or not math.isfinite(npr):
@@ -337,14 +353,20 @@ def baseline_reference(obs, pred, p, sign=1, reported_n_prime=None):
     # R^2 = squared Pearson correlation of predicted and observed
     r2 = corr_squared(A, q, o)
     info["r2"] = r2
-    acc["r_squared"] = [UNDEF] if r2 is None else [num(r2, 1.0, rel=1e-11)]
+    tol_r2 = 1e-11 + 8e-15 * max(spread_condition(q), spread_condition(o)) if r2 is not None else 0.0
     dofm1 = n - p - 1
-    if r2 is None or dofm1 <= 0:
-        acc["r_squared_adj"] = [UNDEF]
-        info["r2adj_class"] = "r2_undefined" if r2 is None else "dof-1<=0"
+    if r2 is not None and tol_r2 > 1e-4:
+        acc["r_squared"] = [ANY]  # the spread of a column is rounding noise
+        acc["r_squared_adj"] = [ANY]
+        info["r2adj_class"] = "ill_conditioned"
     else:
-        acc["r_squared_adj"] = [num(1 - (1 - r2) * (n - 1) / dofm1, max(1.0, (n - 1) / dofm1), rel=1e-11)]
-        info["r2adj_class"] = "ok"
+        acc["r_squared"] = [UNDEF] if r2 is None else [("num", r2, tol_r2)]
+        if r2 is None or dofm1 <= 0:
+            acc["r_squared_adj"] = [UNDEF]
+            info["r2adj_class"] = "r2_undefined" if r2 is None else "dof-1<=0"
+        else:
+            acc["r_squared_adj"] = [("num", 1 - (1 - r2) * (n - 1) / dofm1, tol_r2 * max(1.0, (n - 1) / dofm1))]
+            info["r2adj_class"] = "ok"
     # MAPE over rows whose |observed| is at least (or more than) the floor
     accm = []
     for strict in (False, True):
@@ -429,9 +451,13 @@ def caltrack_reference(obs, pred, p, confidence, reported):
                     outs.append(num(_sqrt(float(r["var"]) * n / (n - dd)) / den, r["absmean"] / den, rel=1e-10))
         acc[f"{nm}_cvstd"] = outs or [ANY]
     r2 = corr_squared(A, q, o)
-    acc["r_squared"] = [NONFINITE] if r2 is None else [num(r2, 1.0, rel=1e-11)]
+    tol_r2 = 1e-11 + 8e-15 * max(spread_condition(q), spread_condition(o)) if r2 is not None else 0.0
     d1 = n - p - 1
-    acc["r_squared_adj"] = [NONFINITE] if (r2 is None or d1 <= 0) else [num(1 - (1 - r2) * (n - 1) / d1, max(1.0, (n - 1) / d1), rel=1e-11)]
+    if r2 is not None and tol_r2 > 1e-4:
+        acc["r_squared"] = acc["r_squared_adj"] = [ANY]
+    else:
+        acc["r_squared"] = [NONFINITE] if r2 is None else [("num", r2, tol_r2)]
+        acc["r_squared_adj"] = [NONFINITE] if (r2 is None or d1 <= 0) else [("num", 1 - (1 - r2) * (n - 1) / d1, tol_r2 * max(1.0, (n - 1) / d1))]
     sse = math.fsum(x * x for x in e)
     rmse = math.sqrt(sse / n)
     acc["rmse"] = [num(rmse)]
@@ -465,7 +491,7 @@ def caltrack_reference(obs, pred, p, confidence, reported):
             outs.append(NONFINITE)
         acc[k] = outs
     if any(y == 0 for y in o):
-        acc["mape"] = [NONFINITE]
+        acc["mape"] = [ANY]  # not a statistic the statement names; 0/0 rows are skipped by the class
     else:
         acc["mape"] = [num(math.fsum(abs(x / y) for x, y in zip(e, o)) / n)]
     pos = [(x, y) for x, y in zip(e, o) if y > 0]
@@ -477,8 +503,12 @@ def caltrack_reference(obs, pred, p, confidence, reported):
         acc["autocorr_resid"] = [NONFINITE]
         acc["n_prime"] = [NONFINITE]
         info["n_prime_class"] = "rho_undefined"
+    elif 4e-15 * max(spread_condition(e[1:]), spread_condition(e[:-1])) > 1e-4:
+        acc["autocorr_resid"] = acc["n_prime"] = [ANY]
+        info["n_prime_class"] = "rho_ill_conditioned"
     else:
-        acc["autocorr_resid"] = [num(rho, 1.0, rel=1e-11)]
+        tol_rho = 2e-14 + 4e-15 * max(spread_condition(e[1:]), spread_condition(e[:-1]))
+        acc["autocorr_resid"] = [("num", rho, 1e-11 + tol_rho)]
         if opz:
             acc["n_prime"] = [NONFINITE]
             info["n_prime_class"] = "rho=-1"
@@ -486,7 +516,7 @@ def caltrack_reference(obs, pred, p, confidence, reported):
             outs = []
             for N in sorted({n, int(reported.get("observed_length") or n)}):
                 v = N * (1 - rho) / (1 + rho)
-                outs.append(("num", v, 1e-12 * max(abs(v), N) + N * 2e-14 / (1 + rho) ** 2))
+                outs.append(("num", v, 1e-12 * max(abs(v), N) + N * tol_rho / (1 + rho) ** 2))
             acc["n_prime"] = outs
             info["n_prime_class"] = "rho=+1" if omz else "regular"
     acc["single_tailed_confidence_level"] = [num(1 - (1 - confidence) / 2)]
